@@ -107,6 +107,36 @@ def direct(lat1, lon1, az1, s12, a, invf):
     return math.degrees(phi2), lon1 + math.degrees(lam12), math.degrees(math.atan2(salp2, calp2))
 
 
+def distance_for_arc(lat1, az1, D, a, invf, two_sigma_m=False):
+    """Length of the geodesic from latitude lat1 at azimuth az1 whose arc on the auxiliary sphere is D radians (or, with
+    two_sigma_m, whose 2 sigma_m = 2 sigma_1 + sigma equals D).  Used only to PLACE workload lines where the trigonometric
+    factors of the classical series vanish; returns None when no such positive arc exists."""
+    f = 1.0 / invf
+    b = a * (1 - f)
+    e2 = f * (2 - f)
+    ep2 = e2 / (1 - e2)
+    sphi, cphi = sincosd(lat1)
+    sbet1, cbet1 = (1 - f) * sphi, cphi
+    h = math.hypot(sbet1, cbet1)
+    sbet1, cbet1 = sbet1 / h, max(TINY, cbet1 / h)
+    salp1, calp1 = sincosd(az1)
+    calp0 = math.hypot(calp1, salp1 * sbet1)
+    ssig1, csig1 = sbet1, calp1 * cbet1
+    if ssig1 == 0 and csig1 == 0:
+        csig1 = 1.0
+    sig1 = math.atan2(ssig1, csig1)
+    if two_sigma_m:
+        D = D - 2 * sig1
+    if not (1e-9 < D < math.pi):
+        return None
+    k2 = ep2 * calp0 * calp0
+
+    def g(d):
+        sg = np.sin(sig1 + d)
+        return np.sqrt(1 + k2 * sg * sg)
+    return float(b * _integrate(g, D, max(1, int(D / 0.8) + 1)))
+
+
 def to_xyz(lat, lon, a, invf, h=0.0):
     f = 1.0 / invf
     e2 = f * (2 - f)
